@@ -210,7 +210,7 @@ func runC05(r *drv.Run) drv.Spec {
 				line += " salloc=exact"
 			}
 			if it.PClass == "periodic" {
-				line = base + fmt.Sprintf(" mode=compact sbuf=%d dbuf=%d", []int{4096, 100, 9000}[mr.Intn(3)], 200+mr.Intn(5000))
+				line = base + fmt.Sprintf(" mode=compact sbuf=%d dbuf=%d", []int{4096, 100, 9000}[mr.Intn(3)], 300+mr.Intn(5000)) // std/lzma needs 274 free destination bytes to make progress
 			}
 			mjobs = append(mjobs, &wd.Job{Text: line + "\n", Tag: it})
 		}
